@@ -1770,6 +1770,7 @@ func (l *Loader) prepareEntityFetch(fetchItem *FetchItem, fetch *EntityFetch, it
 			rendered[:responseCacheHeaderEnd],
 			rendered[responseCacheFooterStart:],
 		)
+		selectionHash = responseCacheMixUndefinedVariables(selectionHash, undefinedVariables)
 		responseCacheItemHash := xxhash.Sum64(renderedItem)
 		prepared.responseCacheKeys = []string{caching.Key(responseCacheItemHash, selectionHash)}
 	}
@@ -1964,6 +1965,7 @@ WithNextItem:
 			rendered[:responseCacheHeaderEnd],
 			rendered[responseCacheFooterStart:],
 		)
+		selectionHash = responseCacheMixUndefinedVariables(selectionHash, undefinedVariables)
 		prepared.responseCacheKeys = make([]string, len(responseCacheItemHashes))
 		for i, itemHash := range responseCacheItemHashes {
 			prepared.responseCacheKeys[i] = caching.Key(itemHash, selectionHash)
